@@ -161,8 +161,11 @@ def instrumented(world, conv, steps, fail_at):
             steps[-1]["pt"] = "crash"
             raise Injected(label)
 
+    wrapped_names = []
+
     def wrap(name, label, first_only=False, cond=None):
         orig = getattr(conv, name)
+        wrapped_names.append(name)
         seen = {"n": 0}
 
         def w(*a, **k):
@@ -189,6 +192,7 @@ def instrumented(world, conv, steps, fail_at):
         finally:
             state["in_check"] = False
     conv.check_NP24 = w_check
+    wrapped_names.append("check_NP24")
 
     o_close, o_comp, o_unlink = spikeglx.Reader.close, spikeglx.Reader.compress_file, pathlib.Path.unlink
 
@@ -225,19 +229,27 @@ def instrumented(world, conv, steps, fail_at):
         spikeglx.Reader.close = o_close
         spikeglx.Reader.compress_file = o_comp
         pathlib.Path.unlink = o_unlink
+        for name in wrapped_names:          # back to the class methods (the object may be used for another run)
+            try:
+                delattr(conv, name)
+            except AttributeError:
+                pass
 
 
 NOOPTS = {"ow": False, "chk": False, "cmp": False, "del": False}
 
 
-def one_process(world, o, fail_at, steps):
-    """one run by a fresh converter; appends records; returns the status string, or None if fail_at is beyond the
-    last step of this run (records are then rolled back by the caller)"""
+def one_process(world, o, fail_at, steps, conv=None):
+    """one run by a fresh converter (or, with `conv`, by the same object again); appends records; returns (status string,
+    converter), status None if fail_at is beyond the last step of this run"""
     import neuropixel
-    steps.append({"pt": "begin", "fs": world.project(), "cd": False, "opts": dict(o), "status": "none"})
+    reuse = conv is not None
+    steps.append({"pt": "begin", "fs": world.project(), "cd": bool(conv.check_completed) if reuse else False, "opts": dict(o),
+                  "status": "none", "reuse": reuse})
     n0 = len(steps)
-    conv = neuropixel.NP2Converter(world.ap_file, post_check=o["chk"], compress=o["cmp"], delete_original=o["del"])
-    conv.init_params(nwindow=W)
+    if not reuse:
+        conv = neuropixel.NP2Converter(world.ap_file, post_check=o["chk"], compress=o["cmp"], delete_original=o["del"])
+        conv.init_params(nwindow=W)
     status = None
     fired = False
     with instrumented(world, conv, steps, fail_at):
@@ -251,19 +263,20 @@ def one_process(world, o, fail_at, steps):
             status = "raised"
             steps.append({"pt": "raise", "fs": world.project(), "cd": bool(conv.check_completed), "exc": f"{type(e).__name__}: {e}"[:160]})
         finally:
-            close_all(conv)
+            close_files(conv)
     if fail_at is not None and not fired:
-        return None
+        return None, conv
     if len(steps) == n0 and status != "raised":
         # process() returned before any instrumented step (not an NP2 probe / already split): the model's Prepare
         steps.append({"pt": "prepare", "fs": steps[-1]["fs"], "cd": False})
     if status == "1":
         steps.append({"pt": "return", "fs": world.project(), "cd": bool(conv.check_completed)})
     steps.append({"pt": "end", "fs": world.project(), "cd": bool(conv.check_completed), "status": status})
-    return status
+    return status, conv
 
 
-def close_all(conv):
+def close_files(conv):
+    """flush what the interrupted / finished run had open (the OS would do it at process exit)"""
     for si in getattr(conv, "shank_info", {}).values():
         for k in ("ap_open_file", "lf_open_file"):
             f = si.get(k)
@@ -274,9 +287,13 @@ def close_all(conv):
                 pass
         try:
             if "sr" in si:
-                si["sr"].close()
+                si.pop("sr").close()
         except Exception:
             pass
+
+
+def close_all(conv):
+    close_files(conv)
     try:
         conv.sr.close()
     except Exception:
@@ -287,16 +304,28 @@ def history(world, runs):
     """runs: list of (opts, fail_at). returns trace record or None if some fail_at does not exist"""
     world.reset()
     steps = []
-    for o, fa in runs:
-        if not world.ap_file.exists():
-            break                    # the original is gone: no further converter can be constructed
-        st = one_process(world, o, fa, steps)
-        if st is None:
-            return None
+    conv = None
+    try:
+        for run in runs:
+            o, fa = run[0], run[1]
+            reuse = len(run) > 2 and run[2]
+            if not world.ap_file.exists():
+                break                    # the original is gone: no further converter can be constructed / the object is dead
+            if reuse and conv is None:
+                break
+            if not reuse and conv is not None:
+                close_all(conv)
+            st, conv = one_process(world, o, fa, steps, conv=conv if reuse else None)
+            if st is None:
+                return None
+    finally:
+        if conv is not None:
+            close_all(conv)
     for s in steps:
         s.setdefault("opts", NOOPTS)
         s.setdefault("status", "none")
-    return {"kind": world.kind, "form": world.form, "runs": [[dict(o), fa] for o, fa in runs], "steps": steps}
+        s.setdefault("reuse", False)
+    return {"kind": world.kind, "form": world.form, "runs": [list(r) for r in runs], "steps": steps}
 
 
 def nstates(t):
@@ -327,6 +356,12 @@ def plan(ctx):
         for f in firsts:
             for o2 in (opts if not ctx.quick else rnd.sample(opts, 5)):
                 out.append((kind, form, [f, (o2, None)]))
+        # the same converter object used again: process(overwrite=True) after a complete or an interrupted first process()
+        for o in rnd.sample(opts, 4 if ctx.quick else 16):
+            for fa in [None] + rnd.sample(range(0, 14), 2 if ctx.quick else 5):
+                out.append((kind, form, [(o, fa), (dict(o, ow=True), None, True)]))
+                if not ctx.quick:
+                    out.append((kind, form, [(o, fa), (dict(o, ow=False), None, True)]))
         if not ctx.quick:
             # second run interrupted as well, third run forced
             for f in rnd.sample(firsts, 10):
@@ -344,14 +379,14 @@ def execute(ctx, items):
         if key not in worlds:
             worlds[key] = World(Path(ctx.scratch) / f"c04_{kind}_{form}", kind, form, rng)
         w = worlds[key]
-        if any(fa == "ALL" for _, fa in runs):
-            base = [(o, None if fa == "ALL" else fa) for o, fa in runs]
+        if any(r[1] == "ALL" for r in runs):
+            base = [(r[0], None if r[1] == "ALL" else r[1]) + tuple(r[2:]) for r in runs]
             t = history(w, base)
             if t:
                 traces.append(t)
             j = 0
             while j < 60:
-                t = history(w, [(o, j if fa == "ALL" else fa) for o, fa in runs])
+                t = history(w, [(r[0], j if r[1] == "ALL" else r[1]) + tuple(r[2:]) for r in runs])
                 if t is None:
                     break
                 traces.append(t)
@@ -367,8 +402,8 @@ def execute(ctx, items):
 
 
 def strip(t):
-    return {"kind": t["kind"], "steps": [{"pt": s["pt"], "fs": s["fs"], "cd": s["cd"], "opts": s["opts"], "status": s["status"]}
-                                         for s in t["steps"]]}
+    return {"kind": t["kind"], "steps": [{"pt": s["pt"], "fs": s["fs"], "cd": s["cd"], "opts": s["opts"], "status": s["status"],
+                                          "reuse": s["reuse"]} for s in t["steps"]]}
 
 
 def validate(ctx, traces, label):
@@ -378,7 +413,8 @@ def validate(ctx, traces, label):
 
 def describe(t):
     return f"{t['kind']}/{t['form']} history " + " ; ".join(
-        "process(" + ",".join(k for k in OPT_KEYS if o[k]) + ")" + (f"@crash{fa}" if fa is not None else "") for o, fa in t["runs"])
+        ("same-object." if len(r) > 2 and r[2] else "") + "process(" + ",".join(k for k in OPT_KEYS if r[0][k]) + ")"
+        + (f"@crash{r[1]}" if r[1] is not None else "") for r in t["runs"])
 
 
 def report(ctx, traces, verdicts):
@@ -415,7 +451,8 @@ def run(ctx):
     verdicts = validate(ctx, traces, "convert")
     report(ctx, traces, verdicts)
     ctx.cov["histories"] = len(traces)
-    ctx.cov["interruptions_injected"] = sum(1 for t in traces for _, fa in t["runs"] if fa is not None)
+    ctx.cov["interruptions_injected"] = sum(1 for t in traces for r in t["runs"] if r[1] is not None)
+    ctx.cov["same_object_histories"] = sum(1 for t in traces if any(len(r) > 2 and r[2] for r in t["runs"]))
     ctx.cov["distinct_observed_directories"] = len({json.dumps(s["fs"], sort_keys=True) for t in traces for s in t["steps"]})
     for t in traces[:1] + [x for x in traces if len(x["runs"]) > 1][:2]:
         ctx.sample({"history": describe(t), "records": [[s["pt"], "".join(f"{k}:{v} " for k, v in s["fs"].items() if v != "A"), s["status"]]
@@ -425,7 +462,7 @@ def run(ctx):
                        "(single runs, enumerated until the run has no further step) + two/three-run histories (complete or "
                        "interrupted first run, any second run); distinct = distinct (kind, original form, run list)")
     ctx.assumptions += ["interruptions are exceptions raised at step boundaries of process() (no torn writes, no power loss)",
-                        "a fresh NP2Converter object per run (re-use of one object across runs is not modelled)",
+                        "a fresh NP2Converter object per run, or the same object called again (BeginReuse)",
                         "projection: a file is complete iff its content equals the expected content (AP: bytes; .cbin: after "
                         "decompression; LF: shape and sync column)"]
 
@@ -464,6 +501,6 @@ def selftest(ctx, traces, bad):
 def replay(ctx, sc):
     import logging
     logging.getLogger("ibllib").setLevel(logging.CRITICAL)
-    runs = [(o, fa) for o, fa in sc["runs"]]
+    runs = [tuple(r) for r in sc["runs"]]
     traces = execute(ctx, [(sc["kind"], sc["form"], runs)])
     report(ctx, traces, validate(ctx, traces, "replay"))
